@@ -410,8 +410,11 @@ fn drop_race_round(rt: &tokio::runtime::Runtime, rng: &mut Rng, cfg: &mut String
 fn killonly_round(rt: &tokio::runtime::Runtime, rng: &mut Rng, cfg: &mut String) -> Option<Bad> {
     let k = 1 + rng.below(6) as usize;
     let threads = 1 + rng.below(4) as usize;
-    let run_mode = if rng.below(4) == 0 { 0 } else { 1 };
-    *cfg = format!("killonly:k{k}:threads{threads}:run{run_mode}");
+    let run_mode = if rng.below(2) == 0 { 0 } else { 1 };
+    // idle actors: the kill lands just as the actor finishes a message and goes back to sleep
+    let after_msg = run_mode == 0 && rng.below(4) != 0;
+    let jitter = rng.below(3000);
+    *cfg = format!("killonly:k{k}:threads{threads}:run{run_mode}:{}", if after_msg { "as-it-goes-idle" } else { "any-time" });
     let mut actors = vec![];
     for _ in 0..k {
         let a = spawn_actor(rt, 2, run_mode, 0);
@@ -423,11 +426,21 @@ fn killonly_round(rt: &tokio::runtime::Runtime, rng: &mut Rng, cfg: &mut String)
     }
     let go = Gate::new();
     let mut hs = vec![];
-    for (r, _, _, _) in &actors {
+    for (r, _, sh, _) in &actors {
         for _ in 0..threads {
-            let (r2, go) = (r.clone(), go.clone());
+            let (r2, go, sh2) = (r.clone(), go.clone(), sh.clone());
             hs.push(std::thread::spawn(move || {
                 go.wait();
+                if after_msg {
+                    let _ = r2.blocking_tell(Item(5), None);
+                    let t0 = Instant::now();
+                    while !sh2.handled.lock().unwrap().contains(&5) && t0.elapsed() < Duration::from_secs(5) {
+                        std::hint::spin_loop();
+                    }
+                    for _ in 0..jitter {
+                        std::hint::spin_loop();
+                    }
+                }
                 r2.kill().map_err(|e| format!("{e}"))
             }));
         }
@@ -444,7 +457,7 @@ fn killonly_round(rt: &tokio::runtime::Runtime, rng: &mut Rng, cfg: &mut String)
         let res = join(rt, jh);
         drop(r);
         match res {
-            None => return bad("C06", "killed-actor-did-not-end", format!("actor {i}: JoinHandle unresolved 10 s after kill() returned")),
+            None => return bad("C06", "killed-actor-did-not-end", format!("actor {i} ({}): JoinHandle unresolved 10 s after kill() had returned Ok on {threads} thread(s)", if after_msg { "idle; killed just as it finished handling a message" } else if run_mode == 1 { "re-arming on_run" } else { "idle" })),
             Some(Err(e)) => return bad("C05", "result-wrong", format!("actor {i}: killed, no hook fails; JoinHandle reported {e}")),
             Some(Ok(res)) => {
                 let stops = sh.on_stop.lock().unwrap().clone();
@@ -463,6 +476,77 @@ fn killonly_round(rt: &tokio::runtime::Runtime, rng: &mut Rng, cfg: &mut String)
         }
     }
     None
+}
+
+/// The same as the "as it goes idle" variant above, but in a tight loop on persistent threads (no
+/// thread is created per attempt): each thread spawns an actor, sends it one message, waits until
+/// the handler has run, waits a generated number of spins more and kills it just as it goes back to
+/// sleep. The kill must not be lost: the actor ends within 10 s, killed=true, on_stop(true) once.
+fn killidle_round(rt: &tokio::runtime::Runtime, rng: &mut Rng, cfg: &mut String) -> Option<Bad> {
+    let threads = 2 + rng.below(3) as usize;
+    let attempts = 300u32;
+    let max_jitter = [50u64, 400, 3000][rng.below(3) as usize];
+    *cfg = format!("killidle:threads{threads}:jitter{max_jitter}");
+    let h = rt.handle().clone();
+    let mut hs = vec![];
+    for t in 0..threads {
+        let h2 = h.clone();
+        let mut x = Rng::new(rng.below(u32::MAX as u64) + t as u64);
+        hs.push(std::thread::spawn(move || -> Option<Bad> {
+            for i in 0..attempts {
+                let sh = Arc::new(Shared { handled: Mutex::new(vec![]), on_stop: Mutex::new(vec![]), spin: 0, next: Mutex::new(None), meet: Mutex::new(None), max_inner_ns: std::sync::atomic::AtomicU64::new(0), ran: AtomicBool::new(false), ticks: AtomicUsize::new(0), callbacks: Mutex::new(vec![]) });
+                let (_tx, rx) = tokio::sync::watch::channel(false);
+                let (r, jh) = {
+                    let _g = h2.enter();
+                    rsactor::spawn_with_mailbox_capacity::<RaceActor>((sh.clone(), rx, 0), 2)
+                };
+                if r.blocking_tell(Item(5), None).is_err() {
+                    return bad("C17", "send-failed-on-live-actor", "blocking_tell to a fresh actor failed".to_string());
+                }
+                let t0 = Instant::now();
+                while !sh.handled.lock().unwrap().contains(&5) {
+                    if t0.elapsed() > Duration::from_secs(5) {
+                        return bad("C01", "accepted-not-handled", "a fresh actor did not handle its first message within 5 s".to_string());
+                    }
+                    std::hint::spin_loop();
+                }
+                for _ in 0..x.below(max_jitter + 1) {
+                    std::hint::spin_loop();
+                }
+                if let Err(e) = r.kill() {
+                    return bad("C06", "kill-failed", format!("kill() returned Err({e})"));
+                }
+                let res = h2.block_on(async { tokio::time::timeout(Duration::from_secs(10), jh).await });
+                match res {
+                    Err(_) => return bad("C06", "killed-actor-did-not-end", format!("attempt {i}: kill() returned Ok just as the (otherwise idle) actor had finished handling a message; 10 s later its JoinHandle had not resolved and is_alive() = {}", r.is_alive())),
+                    Ok(Err(e)) => return bad("C05", "result-wrong", format!("killed actor: JoinHandle reported {e}")),
+                    Ok(Ok(res)) => {
+                        let stops = sh.on_stop.lock().unwrap().clone();
+                        if !res.is_completed() || !res.was_killed() {
+                            if stops != vec![true] {
+                                also("C04", "on-stop-calls-wrong", format!("only kill() ended the actor; on_stop calls {stops:?}"));
+                            }
+                            also("C06", "not-reported-killed", format!("only kill() ended the actor; result completed={} killed={}", res.is_completed(), res.was_killed()));
+                            return bad("C05", "result-wrong", format!("only kill() ended the actor; result completed={} killed={}", res.is_completed(), res.was_killed()));
+                        }
+                        if stops != vec![true] {
+                            return bad("C04", "on-stop-calls-wrong", format!("only kill() ended the actor; on_stop calls {stops:?}"));
+                        }
+                    }
+                }
+            }
+            None
+        }));
+    }
+    let mut first = None;
+    for hd in hs {
+        match hd.join() {
+            Ok(None) => {}
+            Ok(Some(b)) => first = first.or(Some(b)),
+            Err(_) => return bad("C06", "kill-panicked", "a thread of the kill loop panicked".to_string()),
+        }
+    }
+    first
 }
 
 // ---------------------------------------------------------------------------------------------
@@ -647,7 +731,8 @@ fn stop_race_round(rt: &tokio::runtime::Runtime, rng: &mut Rng, cfg: &mut String
     let early = rng.below(3) as u32;
     let blocking = rng.below(2) == 0;
     let jitter = rng.below(300) as u32;
-    *cfg = format!("stop:cap{cap}:n{n}:early{early}:{}", if blocking { "blocking" } else { "async" });
+    let mid_send = rng.below(2) == 0;
+    *cfg = format!("stop:cap{cap}:n{n}:early{early}:{}:{}", if blocking { "blocking" } else { "async" }, if mid_send { "send-races-stop" } else { "stop-only" });
     let h = rt.handle().clone();
     let mut refs = vec![];
     let mut joins = vec![];
@@ -674,19 +759,28 @@ fn stop_race_round(rt: &tokio::runtime::Runtime, rng: &mut Rng, cfg: &mut String
         hs.push(std::thread::spawn(move || {
             // per actor: did my stop() return Ok, and did I send afterwards
             let mut late = vec![false; BATCH];
+            let mut rejected = vec![false; BATCH];
             for i in 0..BATCH {
                 arrive[i].fetch_add(1, Ordering::AcqRel);
                 let t0 = Instant::now();
                 while arrive[i].load(Ordering::Acquire) < n {
                     std::hint::spin_loop();
                     if t0.elapsed() > Duration::from_secs(20) {
-                        return late;
+                        return (late, rejected);
                     }
                 }
                 for _ in 0..((t as u32 + i as u32) * jitter) % 200 {
                     std::hint::spin_loop();
                 }
                 let r2 = &refs[i];
+                if t > 0 && mid_send {
+                    // a send racing with the other threads' stop(): if it is rejected it must never be handled
+                    let id = 200 + t as u32;
+                    let o = if blocking { call(r2, &h2, Api::BTell, id, Duration::ZERO) } else { call(r2, &h2, Api::Tell, id, Duration::ZERO) };
+                    if o != Outc::Ok {
+                        rejected[i] = true;
+                    }
+                }
                 let stopped = h2.block_on(r2.stop()).is_ok();
                 if stopped && t > 0 {
                     let id = 100 + t as u32;
@@ -694,13 +788,15 @@ fn stop_race_round(rt: &tokio::runtime::Runtime, rng: &mut Rng, cfg: &mut String
                     late[i] = true;
                 }
             }
-            late
+            (late, rejected)
         }));
     }
     let mut lates: Vec<Vec<bool>> = vec![];
+    let mut rejs: Vec<Vec<bool>> = vec![];
     for hd in hs {
-        let Ok(l) = hd.join() else { return bad("C17", "blocking-call-panicked", "a stopping thread panicked".to_string()) };
+        let Ok((l, rj)) = hd.join() else { return bad("C17", "blocking-call-panicked", "a stopping thread panicked".to_string()) };
         lates.push(l);
+        rejs.push(rj);
     }
     drop(refs);
     for (i, jh) in joins.into_iter().enumerate() {
@@ -708,6 +804,9 @@ fn stop_race_round(rt: &tokio::runtime::Runtime, rng: &mut Rng, cfg: &mut String
         let handled = shs[i].handled.lock().unwrap().clone();
         for t in 1..n {
             let id = 100 + t as u32;
+            if rejs[t][i] && handled.contains(&(200 + t as u32)) {
+                return bad("C01", "rejected-but-handled", format!("tell of message {} racing with stop() calls of other threads returned an error, yet the message was handled (capacity {cap}, {n} threads)", 200 + t));
+            }
             if lates[t][i] && handled.contains(&id) {
                 return bad("C02", "handled-after-stop-returned", format!("message {id} was sent by a thread only after its own stop() call had returned Ok ({n} threads stopping the same actor at the same instant, capacity {cap}), yet it was handled"));
             }
@@ -911,6 +1010,142 @@ fn ring_round(_rt: &tokio::runtime::Runtime, _rng: &mut Rng, cfg: &mut String) -
 }
 
 // ---------------------------------------------------------------------------------------------
+// hot loop of timed blocking calls against an actor that answers at once
+// ---------------------------------------------------------------------------------------------
+/// 2-4 threads keep calling blocking_ask / blocking_tell with a 5 s timeout (or the async timeout
+/// variants through block_on) on a live actor whose handler returns immediately. Every call
+/// completes within microseconds, so none may report Timeout, and each must be back long before 5 s.
+fn hot_round(rt: &tokio::runtime::Runtime, rng: &mut Rng, cfg: &mut String) -> Option<Bad> {
+    let threads = 2 + rng.below(3) as usize;
+    let calls = 100 + rng.below(300) as u32;
+    let cap = [1usize, 4, 32][rng.below(3) as usize];
+    let shared_actor = rng.below(2) == 0;
+    let apis: Vec<Api> = (0..threads).map(|_| TIMED_APIS[rng.below(TIMED_APIS.len() as u64) as usize]).collect();
+    *cfg = format!("hot:threads{threads}:calls{calls}:cap{cap}:{}", if shared_actor { "one-actor" } else { "actor-per-thread" });
+    let actors: Vec<_> = (0..if shared_actor { 1 } else { threads }).map(|_| spawn_actor(rt, cap, 0, 0)).collect();
+    let h = rt.handle().clone();
+    let go = Gate::new();
+    let mut hs = vec![];
+    for t in 0..threads {
+        let (r2, go, h2, api) = (actors[if shared_actor { 0 } else { t }].0.clone(), go.clone(), h.clone(), apis[t]);
+        hs.push(std::thread::spawn(move || {
+            go.wait();
+            for i in 0..calls {
+                let id = 1000 * (t as u32 + 1) + i;
+                let b = Instant::now();
+                let o = call(&r2, &h2, api, id, Duration::from_secs(5));
+                let el = b.elapsed();
+                let fine = match (&o, is_tell(api)) {
+                    (Outc::Ok, true) => true,
+                    (Outc::Reply(v), false) => *v == reply_of(id),
+                    _ => false,
+                };
+                if !fine {
+                    return Err((api, id, o, el));
+                }
+            }
+            Ok(())
+        }));
+    }
+    go.release(threads);
+    let mut first = None;
+    for hd in hs {
+        match hd.join() {
+            Ok(Ok(())) => {}
+            Ok(Err(x)) => first = first.or(Some(x)),
+            Err(_) => return bad("C17", "blocking-call-panicked", "a caller thread panicked".to_string()),
+        }
+    }
+    for (r, jh, _, _) in actors {
+        let _ = rt.block_on(r.stop());
+        drop(r);
+        let _ = join(rt, jh);
+    }
+    if let Some((api, id, o, el)) = first {
+        let (p, kind) = match o {
+            Outc::Timeout => ("C10", "timeout-although-completed"),
+            Outc::Reply(_) => ("C03", "wrong-reply"),
+            _ => ("C17", "send-failed-on-live-actor"),
+        };
+        return bad(p, kind, format!("{api:?} of message {id} with a 5 s timeout, against a live actor whose handler returns at once ({threads} threads calling in a loop), returned {o:?} after {el:?}"));
+    }
+    None
+}
+
+// ---------------------------------------------------------------------------------------------
+// photo finish: replies arriving around the deadline of ask_with_timeout (test-utils builds)
+// ---------------------------------------------------------------------------------------------
+/// 2-8 caller threads, each with its own actor, issue ask_with_timeout calls whose handler stays
+/// busy for the timeout plus or minus a swept skew, so that the reply and the timer race. Whatever
+/// the outcome of each call, the dead-letter counter must have advanced by exactly the number of
+/// calls that returned an error: a call that returns Ok records nothing.
+#[cfg(feature = "test-utils")]
+fn photo_round(rt: &tokio::runtime::Runtime, rng: &mut Rng, cfg: &mut String) -> Option<Bad> {
+    let pairs = 2 + rng.below(7) as usize;
+    let per = 4 + rng.below(12) as u32;
+    let t_ms = [1u64, 2, 3][rng.below(3) as usize];
+    let spread = [50u64, 200, 600][rng.below(3) as usize];
+    *cfg = format!("photo:pairs{pairs}:per{per}:t{t_ms}ms:spread{spread}us");
+    let actors: Vec<_> = (0..pairs).map(|_| spawn_actor(rt, 4, 0, 0)).collect();
+    let before = rsactor::dead_letter_count();
+    let h = rt.handle().clone();
+    let go = Gate::new();
+    let mut hs = vec![];
+    for (p, (r, _, _, _)) in actors.iter().enumerate() {
+        let (r2, go, h2) = (r.clone(), go.clone(), h.clone());
+        let mut x = Rng::new(rng.below(u32::MAX as u64) + p as u64);
+        hs.push(std::thread::spawn(move || {
+            go.wait();
+            let (mut ok, mut err, mut other) = (0u64, 0u64, vec![]);
+            for _ in 0..per {
+                let busy = (t_ms * 1000 + x.below(2 * spread + 1)).saturating_sub(spread);
+                match h2.block_on(r2.ask_with_timeout(Work(busy), Duration::from_millis(t_ms))) {
+                    Ok(_) => ok += 1,
+                    Err(e) if e.is_retryable() => err += 1,
+                    Err(e) => {
+                        err += 1;
+                        other.push(format!("{e}"));
+                    }
+                }
+                // let the (possibly still busy) handler finish so that the next call starts clean
+                let _ = h2.block_on(r2.ask(Work(0)));
+            }
+            (ok, err, other)
+        }));
+    }
+    go.release(pairs);
+    let (mut ok, mut err) = (0, 0);
+    for hd in hs {
+        match hd.join() {
+            Ok((o, e, other)) => {
+                ok += o;
+                err += e;
+                if !other.is_empty() {
+                    return bad("C10", "wrong-result", format!("ask_with_timeout on a live actor failed with something other than Timeout: {other:?}"));
+                }
+            }
+            Err(_) => return bad("C13", "caller-panicked", "a caller thread panicked".to_string()),
+        }
+    }
+    let after = rsactor::dead_letter_count();
+    for (r, jh, _, _) in actors {
+        let _ = rt.block_on(r.stop());
+        drop(r);
+        let _ = join(rt, jh);
+    }
+    if after - before != err {
+        return bad("C13", "counter-mismatch", format!("{pairs} threads x {per} ask_with_timeout({t_ms} ms) calls whose handlers finish within {spread} us of the deadline: {ok} returned Ok and {err} returned an error, but dead_letter_count() advanced by {}", after - before));
+    }
+    None
+}
+
+#[cfg(not(feature = "test-utils"))]
+fn photo_round(_rt: &tokio::runtime::Runtime, _rng: &mut Rng, cfg: &mut String) -> Option<Bad> {
+    *cfg = "photo:skipped-without-test-utils".into();
+    None
+}
+
+// ---------------------------------------------------------------------------------------------
 // on_run is re-armed after every message
 // ---------------------------------------------------------------------------------------------
 /// The actor's on_run sleeps 1 ms, counts a tick and returns Ok(true). Messages arrive one at a
@@ -963,11 +1198,15 @@ fn rearm_round(rt: &tokio::runtime::Runtime, rng: &mut Rng, cfg: &mut String) ->
 /// gracefully, whichever kind of weak handle is being used elsewhere.
 fn weakpin_round(rt: &tokio::runtime::Runtime, rng: &mut Rng, cfg: &mut String) -> Option<Bad> {
     use rsactor::{WeakActorControl, WeakAskHandler, WeakTellHandler};
-    let form = rng.below(4) as u8;
+    // forms 4..7: the same handles, but the threads hammer upgrade() itself (which may legitimately
+    // hold the actor for an instant, so only "never panics, right identity, the actor ends" is checked)
+    let form = rng.below(8) as u8;
+    let upgrading = form >= 4;
+    let form = form % 4;
     let threads = 1 + rng.below(3) as usize;
     let run_mode = rng.below(2) as u8;
     let form_name = ["ActorWeak", "Box<dyn WeakActorControl>", "Box<dyn WeakTellHandler>", "Box<dyn WeakAskHandler>"][form as usize];
-    *cfg = format!("weakpin:form{form}:threads{threads}:run{run_mode}");
+    *cfg = format!("weakpin:form{form}:{}:threads{threads}:run{run_mode}", if upgrading { "upgrade" } else { "observe" });
     let (r, jh, sh, _tx) = spawn_actor(rt, 2, run_mode, 0);
     let t0 = Instant::now();
     while !sh.ran.load(Ordering::Acquire) {
@@ -989,6 +1228,18 @@ fn weakpin_round(rt: &tokio::runtime::Runtime, rng: &mut Rng, cfg: &mut String) 
             let ah: Box<dyn WeakAskHandler<Item, u64>> = (&w).into();
             go.wait();
             while !stop.load(Ordering::Acquire) {
+                if upgrading {
+                    let id = match form {
+                        0 => w.upgrade().map(|r| r.identity()),
+                        1 => ctl.upgrade().map(|c| c.identity()),
+                        2 => th.upgrade().map(|t| t.as_control().identity()),
+                        _ => ah.upgrade().map(|a| a.as_control().identity()),
+                    };
+                    if id.map(|i| i != ident).unwrap_or(false) {
+                        return Err(format!("an upgraded handle reports identity {id:?}, the actor is {ident}"));
+                    }
+                    continue;
+                }
                 let id = match form {
                     0 => {
                         let _ = w.is_alive();
@@ -1023,18 +1274,26 @@ fn weakpin_round(rt: &tokio::runtime::Runtime, rng: &mut Rng, cfg: &mut String) 
         std::hint::spin_loop();
     }
     drop(r);
-    let up = weak.upgrade();
-    let pinned = up.is_some();
-    drop(up);
+    let up = std::panic::catch_unwind(std::panic::AssertUnwindSafe(|| weak.upgrade()));
+    let (pinned, own_panic) = match up {
+        Ok(u) => (u.is_some(), false),
+        Err(_) => (false, true),
+    };
     stop.store(true, Ordering::Release);
+    if own_panic {
+        for h in hs {
+            let _ = h.join();
+        }
+        return bad("C11", "weak-handle-panicked", format!("ActorWeak::upgrade() panicked right after the last strong reference had been dropped, while {threads} other thread(s) were using a {form_name}"));
+    }
     for h in hs {
         match h.join() {
             Ok(Ok(())) => {}
             Ok(Err(e)) => return bad("C11", "identity-mismatch", e),
-            Err(_) => return bad("C16", "weak-handle-panicked", format!("a thread using {form_name} panicked")),
+            Err(_) => return bad(if form == 0 { "C11" } else { "C16" }, "weak-handle-panicked", format!("a thread calling {} on a {form_name} panicked while the last strong reference was being dropped on another thread", if upgrading { "upgrade()" } else { "is_alive / identity / clone" })),
         }
     }
-    if pinned {
+    if pinned && !upgrading {
         return bad(if form == 0 { "C11" } else { "C16" }, "weak-handle-pins-actor", format!("the only strong reference of an idle actor (no message ever sent, on_start over) was dropped while {threads} other thread(s) were calling is_alive / identity / clone on a {form_name}; upgrade() right afterwards still returned a live reference - something other than a strong handle was keeping the actor alive"));
     }
     match join(rt, jh) {
@@ -1154,24 +1413,25 @@ fn metrics_round(_rt: &tokio::runtime::Runtime, _rng: &mut Rng, cfg: &mut String
 // ---------------------------------------------------------------------------------------------
 // driver
 // ---------------------------------------------------------------------------------------------
-pub const KINDS: [&str; 10] = ["drop", "burst", "parked", "stop", "ring", "metrics", "weakpin", "rearm", "killonly", "callback"];
+pub const KINDS: [&str; 13] = ["drop", "burst", "parked", "stop", "ring", "metrics", "weakpin", "rearm", "killonly", "callback", "photo", "hot", "killidle"];
 
 /// Which experiments the check of a property runs, and which clauses (properties) it reports: a
 /// round that breaks a clause of some *other* property is left to that property's own check.
 pub fn kinds_for(prop: &str) -> &'static [&'static str] {
     match prop {
-        "C01" => &["burst", "parked", "drop"],
+        "C01" => &["burst", "parked", "drop", "stop"],
         "C02" => &["stop", "burst"],
         "C04" | "C05" => &["drop", "stop", "killonly"],
-        "C06" => &["killonly"],
+        "C06" => &["killonly", "killidle"],
         "C07" => &["drop", "stop", "weakpin"],
         "C11" | "C16" => &["weakpin"],
         "C08" => &["rearm"],
         "C09" => &["parked"],
-        "C10" => &["parked"],
+        "C10" => &["parked", "hot"],
+        "C13" => &["photo"],
         "C14" => &["ring"],
         "C15" => &["ring", "callback"],
-        "C17" => &["burst", "parked"],
+        "C17" => &["burst", "parked", "hot"],
         "C20" => &["metrics"],
         _ => &[],
     }
@@ -1185,10 +1445,10 @@ fn reports(host: &str, clause: &str) -> bool {
 type Sink<'a> = &'a dyn Fn(&str, &str, &str, &str, serde_json::Value) -> String;
 
 fn run_kind(prop: &str, kind: &'static str, rng_seed: u64, rounds: u32, replay_out: &str, part: &mut Part, write_replay: Sink) -> i32 {
-    if kind == "ring" || kind == "callback" {
-        // deadlock panics inside actor tasks are the expected outcome here; keep stderr quiet
-        std::panic::set_hook(Box::new(|_| {}));
-    }
+    // panics inside actor tasks (deadlock reports) or inside the experiment's own threads (a
+    // panicking API call is what some rounds look for) are observed through join handles; the
+    // harness-wide hook, which treats a panic outside a simulated case as fatal, must not see them
+    std::panic::set_hook(Box::new(|_| {}));
     let rt = tokio::runtime::Builder::new_multi_thread().worker_threads(6).enable_time().build().expect("runtime");
     let mut rng = Rng::new(rng_seed);
     for _ in 0..rounds {
@@ -1203,6 +1463,9 @@ fn run_kind(prop: &str, kind: &'static str, rng_seed: u64, rounds: u32, replay_o
             "rearm" => rearm_round(&rt, &mut rng, &mut cfg),
             "killonly" => killonly_round(&rt, &mut rng, &mut cfg),
             "callback" => callback_round(&rt, &mut rng, &mut cfg),
+            "photo" => photo_round(&rt, &mut rng, &mut cfg),
+            "hot" => hot_round(&rt, &mut rng, &mut cfg),
+            "killidle" => killidle_round(&rt, &mut rng, &mut cfg),
             _ => stop_race_round(&rt, &mut rng, &mut cfg),
         };
         part.evaluations += 1;
@@ -1222,8 +1485,12 @@ fn run_kind(prop: &str, kind: &'static str, rng_seed: u64, rounds: u32, replay_o
             if !reports(prop, b.prop) {
                 // the tree is broken in a way another property's check reports; the rest of this
                 // experiment would only wait out its slack round after round
-                *part.labels.entry(format!("race_round_broke_{}_clause_left_to_its_own_check", b.prop)).or_default() += 1;
-                break;
+                let n = part.labels.entry(format!("race_round_broke_{}_clause_left_to_its_own_check", b.prop)).or_default();
+                *n += 1;
+                if *n >= 20 {
+                    break;
+                }
+                continue;
             }
             let detail = if b.prop == prop { b.detail.clone() } else { format!("[{} rule] {}", b.prop, b.detail) };
             let path = write_replay(replay_out, prop, b.kind, &detail, serde_json::json!({"race": {"kind": kind, "seed": rng_seed, "rounds": rounds}}));
